@@ -207,7 +207,8 @@ func c10(run *ev.Run, tier string) {
 				}
 			}
 			if i%3 == 0 {
-				s.APK.Sig.KeyName = "verif-key-" + rk.name
+				// names that already look like a file name, short of the full suffix
+				s.APK.Sig.KeyName = []string{"verif-key-" + rk.name, "ci-signing.pub", "key.rsa", "verif-key.pub." + rk.name}[(i/3)%4]
 			}
 		} else {
 			pk = pgpKeys[(i/len(methods))%len(pgpKeys)]
@@ -748,6 +749,8 @@ func c10(run *ev.Run, tier string) {
 	if haveGpgv {
 		c10KeySizes(run, base, &verified, gpgHome, gpgVerify)
 	}
+	c10SourceDateEpoch(run, base, kr, &verified, haveGpgv, gpgVerify)
+	c10EmptyKeyID(run, base, kr, &verified)
 	run.Set("signatures_verified", verified)
 	run.Set("callback_byte_streams_compared", cbBytes)
 	run.Set("failure_injections", failures)
@@ -1050,6 +1053,119 @@ func c10KeySizes(run *ev.Run, base func() *gen.Spec, verified *int64, gpgHome st
 				} else {
 					atomic.AddInt64(verified, 1)
 				}
+			}
+		}
+	}
+}
+
+// c10SourceDateEpoch: reproducible-build setups export SOURCE_DATE_EPOCH, often
+// a date long before the signing key was made (the last commit of an old
+// branch) or far ahead. Signing with a key that is valid today still works and
+// the signature verifies.
+func c10SourceDateEpoch(run *ev.Run, base func() *gen.Spec, kr openpgp.EntityList, verified *int64, haveGpg bool, gpgVerify func(sig, msg []byte) (bool, string)) {
+	prev, had := os.LookupEnv("SOURCE_DATE_EPOCH")
+	defer func() {
+		if had {
+			_ = os.Setenv("SOURCE_DATE_EPOCH", prev)
+		} else {
+			_ = os.Unsetenv("SOURCE_DATE_EPOCH")
+		}
+	}()
+	for _, sde := range []string{"1000000000", "0", "4000000000"} {
+		_ = os.Setenv("SOURCE_DATE_EPOCH", sde)
+		for _, m := range []string{"deb", "deb-dpkg-sig", "rpm"} {
+			format := strings.SplitN(m, "-", 2)[0]
+			s := base()
+			s.MTime = 0
+			s.Deb.Sig.KeyFile, s.RPM.Sig.KeyFile = testKey("privkey_unprotected.asc"), testKey("privkey_unprotected.asc")
+			if m == "deb-dpkg-sig" {
+				s.Deb.Sig.Method = "dpkg-sig"
+			}
+			res := buildYAML(s.YAML(), format)
+			run.Case("source-date-epoch|"+sde+"|"+m, true)
+			if res.Err != nil || res.Panic != "" {
+				run.Violate("C10/"+format+"/signed-build-error/source-date-epoch-set", map[string]any{"SOURCE_DATE_EPOCH": sde, "method": m, "error": fmt.Sprint(res.Err, ev.Short(res.Panic, 200))})
+				continue
+			}
+			p := dec.Decode(format, res.Bytes, false)
+			var verr error
+			gpgOK, gpgOut := true, ""
+			switch m {
+			case "deb":
+				_, verr = openpgp.CheckArmoredDetachedSignature(kr, bytes.NewReader(debMessage(p)), bytes.NewReader(p.SigMember.Data), nil)
+				if haveGpg {
+					gpgOK, gpgOut = gpgVerify(p.SigMember.Data, debMessage(p))
+				}
+			case "deb-dpkg-sig":
+				if blk, _ := clearsign.Decode(p.SigMember.Data); blk == nil {
+					verr = errors.New("not clear-signed")
+				} else {
+					_, verr = blk.VerifySignature(kr, nil)
+				}
+				if haveGpg {
+					gpgOK, gpgOut = gpgVerify(p.SigMember.Data, nil)
+				}
+			case "rpm":
+				_, verr = openpgp.CheckDetachedSignature(kr, bytes.NewReader(p.Rpm.Hdr.Blob), bytes.NewReader(p.Rpm.Sig.Tags[dec.RpmSigRSA].Bin), nil)
+				if haveGpg {
+					gpgOK, gpgOut = gpgVerify(p.Rpm.Sig.Tags[dec.RpmSigRSA].Bin, p.Rpm.Hdr.Blob)
+				}
+			}
+			switch {
+			case verr != nil:
+				run.Violate("C10/"+format+"/signature-does-not-verify/source-date-epoch-set", map[string]any{"SOURCE_DATE_EPOCH": sde, "method": m, "error": verr.Error()})
+			case !gpgOK:
+				run.Violate("C10/"+format+"/gpg-rejects/source-date-epoch-set", map[string]any{"SOURCE_DATE_EPOCH": sde, "method": m, "gpg": ev.Short(gpgOut, 300)})
+			default:
+				atomic.AddInt64(verified, 1)
+			}
+		}
+	}
+}
+
+// c10EmptyKeyID: a key_id that is present but empty - typically `key_id:
+// ${SIGNING_KEY_ID}` in a pipeline that does not set the variable - selects
+// nothing: the key file's own signing key signs.
+func c10EmptyKeyID(run *ev.Run, base func() *gen.Spec, kr openpgp.EntityList, verified *int64) {
+	for _, kid := range []string{"${VERIF_UNSET_KEY_ID}", "${VERIF_BLANK_KEY_ID}"} {
+		for _, m := range []string{"deb", "deb-dpkg-sig", "rpm"} {
+			format := strings.SplitN(m, "-", 2)[0]
+			s := base()
+			s.Deb.Sig.KeyFile, s.RPM.Sig.KeyFile = testKey("privkey_unprotected.asc"), testKey("privkey_unprotected.asc")
+			s.Deb.Sig.KeyID, s.RPM.Sig.KeyID = kid, kid
+			if m == "deb-dpkg-sig" {
+				s.Deb.Sig.Method = "dpkg-sig"
+			}
+			cfg, err := parseYAML(s.YAML(), func(string) string { return "" })
+			run.Case("empty-key-id|"+kid+"|"+m, true)
+			if err != nil {
+				run.Violate("C10/"+format+"/signed-build-error/key-id-expands-to-nothing", map[string]any{"key_id": kid, "method": m, "error": err.Error()})
+				continue
+			}
+			info, _ := infoFor(&cfg, format)
+			res := packageInfo(format, info)
+			if res.Err != nil || res.Panic != "" {
+				run.Violate("C10/"+format+"/signed-build-error/key-id-expands-to-nothing", map[string]any{"key_id": kid, "method": m, "error": fmt.Sprint(res.Err, ev.Short(res.Panic, 200))})
+				continue
+			}
+			p := dec.Decode(format, res.Bytes, false)
+			var verr error
+			switch m {
+			case "deb":
+				_, verr = openpgp.CheckArmoredDetachedSignature(kr, bytes.NewReader(debMessage(p)), bytes.NewReader(p.SigMember.Data), nil)
+			case "deb-dpkg-sig":
+				if blk, _ := clearsign.Decode(p.SigMember.Data); blk == nil {
+					verr = errors.New("not clear-signed")
+				} else {
+					_, verr = blk.VerifySignature(kr, nil)
+				}
+			case "rpm":
+				_, verr = openpgp.CheckDetachedSignature(kr, bytes.NewReader(p.Rpm.Hdr.Blob), bytes.NewReader(p.Rpm.Sig.Tags[dec.RpmSigRSA].Bin), nil)
+			}
+			if verr != nil {
+				run.Violate("C10/"+format+"/signature-does-not-verify/key-id-expands-to-nothing", map[string]any{"key_id": kid, "method": m, "error": verr.Error()})
+			} else {
+				atomic.AddInt64(verified, 1)
 			}
 		}
 	}
